@@ -56,6 +56,21 @@ def decodeOp (j : Json) : R Json := do
     let bits ← getBits j "bits"
     pure (Json.mkObj [("value", C09.valJ (decodeOutput r bits))])
 
+/-- `c05.pure`: `format_outcome(reading, out_len)`, `interpret_as_qtype(reading, ret, out_len)` and the
+caller's reading object after the call -/
+def pureOp (j : Json) : R Json := do
+  let ret ← C09.parseTy (← j.getObjVal? "ret")
+  let q := getQuirks j
+  let form ← j.getObjValAs? String "form"
+  let ol : Option Nat := (j.getObjValAs? Nat "out_len").toOption
+  let bits ← match form with
+    | "int" => do pure (formatOutcomeInt (← j.getObjValAs? Nat "n"))
+    | _ => getBits j "bits"
+  pure (Json.mkObj [("fmt", bitsJ (formatOutcome bits ol)),
+    ("value", C09.valJ (interpretAsQtype bits ret ol)),
+    ("arg_after", bitsJ (formatOutcomeArgAfter q bits ol)),
+    ("decode_arg_after", bitsJ (decodeOutputArgAfter q bits))])
+
 /-- `c05.ret`: names the Return statement gives to the bits of the returned expression -/
 def retOp (j : Json) : R Json := do
   let e ← parseRExp (← j.getObjVal? "rexp")
@@ -98,6 +113,7 @@ def handle (op : String) (j : Json) : Option (R Json) :=
   | "c05.sig" => some (sigOp j)
   | "c05.encode" => some (encodeOp j)
   | "c05.decode" => some (decodeOp j)
+  | "c05.pure" => some (pureOp j)
   | "c05.ret" => some (retOp j)
   | "c05.outq" => some (outqOp j)
   | "c05.counts" => some (countsOp j)
